@@ -102,9 +102,9 @@ def tree_from_indent(text, syn, o):
             line = line[len(ind):]
             d += 1
         body = line
-        if syn in ('pug', 'slim') and body.startswith('| '):
+        if syn in ('pug', 'slim') and (body.startswith('| ') or body == '|'):
             continue
-        if syn == 'haml' and body.endswith(' |'):
+        if syn == 'haml' and (body.endswith(' |') or body == '|'):
             continue
         m = re.match(r'^%?([\w:-]*)', body)
         name = m.group(1) if m else ''
@@ -244,7 +244,7 @@ def script15(draw, depth=0):
             if r < 0.25:
                 it['x'] = [draw(st.sampled_from(['t', 'some text', 'x y z']))]
             elif r < 0.35:
-                it['x'] = [draw(st.sampled_from(['one\ntwo', 'a\nbbb\ncc', 'l1\r\nl2']))]
+                it['x'] = [draw(st.sampled_from(['one\ntwo', 'a\nbbb\ncc', 'l1\r\nl2', 'one\n\ntwo', 'p1\nq\n\nr\ns', 'x\n\n\ny']))]
             elif r < 0.45:
                 it['sc'] = True
             if draw(st.floats(0, 1)) < 0.2:
